@@ -852,6 +852,48 @@ Varable failures: {var_failed}
             newlayf = layf.applyAlongDimensions(lay=kwds['LAY'])
             nlayb = newlayf.variables['lay_bounds']
             outf.VGLVLS = np.append(nlayb[:, 0], nlayb[-1, 1]).view(np.ndarray)
+        if 'TSTEP' in kwds and 'TFLAG' in outf.variables:
+            # time flags are not data: a function applied along TSTEP must
+            # not be applied to them; rebuild them from the start date/time
+            del outf.variables['TFLAG']
+        outf.updatemeta()
+        return outf
+
+    def renameVariables(self, *args, **kwds):
+        """
+        Wrapper PseudoNetCDFFile.renameVariables that corrects VAR-LIST,
+        NVARS, VAR and TFLAG meta-data according to the ioapi format
+
+        Parameters
+        ----------
+        see PseudoNetCDFFile.renameVariables
+        """
+        outf = PseudoNetCDFFile.renameVariables(self, *args, **kwds)
+        outf.updatemeta()
+        return outf
+
+    def stack(self, *args, **kwds):
+        """
+        Wrapper PseudoNetCDFFile.stack that corrects NVARS, VAR, TFLAG and
+        the dimension-length meta-data according to the ioapi format
+
+        Parameters
+        ----------
+        see PseudoNetCDFFile.stack
+        """
+        outf = PseudoNetCDFFile.stack(self, *args, **kwds)
+        other = kwds.get('other', args[0] if len(args) > 0 else None)
+        stackdim = kwds.get('stackdim', args[1] if len(args) > 1 else None)
+        if stackdim == 'LAY' and hasattr(self, 'VGLVLS'):
+            # consecutive pieces share the edge between them
+            from collections.abc import Iterable
+            if isinstance(other, Iterable):
+                fs = [self] + list(other)
+            else:
+                fs = [self, other]
+            edges = [np.asarray(f_.VGLVLS)[:-1] for f_ in fs[:-1]]
+            edges.append(np.asarray(fs[-1].VGLVLS))
+            outf.VGLVLS = np.concatenate(edges)
         outf.updatemeta()
         return outf
 
